@@ -164,8 +164,12 @@ def replay(path):
     rp = json.load(open(path))
     if rp.get("family"):   # replay files of other families name their plan module
         mod = _importlib.import_module("plan_" + rp["family"])
+        if hasattr(mod, "replay_file"):
+            return mod.replay_file(path)
         if hasattr(mod, "replay"):
-            return mod.replay(rp)
+            import inspect
+            first = list(inspect.signature(mod.replay).parameters)[0]
+            return mod.replay(path if first == "path" else rp)
     prop = rp["property"]
     verdict = v.Verdict(prop, "quick", 0)
     stats = session.new_stats()
